@@ -14,7 +14,7 @@
     of visited nodes with the value written and whether the choice was called. *)
 From Coq Require Import List NArith PArith Bool Arith.
 From OxiVerif Require Import DD.Table DD.TableProofs DD.BuildProofs DD.ApplyProofs DD.SatCount
-  DD.Pick DD.PickProofs DD.PickBdd DD.PickBcdd DD.PickZbdd DD.PickUniform DD.PickExamples.
+  DD.Pick DD.PickProofs DD.PickBdd DD.PickBcdd DD.PickZbdd DD.PickUniform DD.PickExamples DD.PickThms.
 Import ListNotations.
 
 (** * BDD *)
@@ -46,10 +46,7 @@ Theorem C13_bdd_pick_cube_entries : forall St choice s st e cb tr st', BddOK s -
   length cb = nlevels s /\
   forall l, l < nlevels s ->
     cube_lit s cb l = match trace_val tr l with Some v => v | None => None end.
-Proof.
-  intros St choice s st e cb tr st' B G E.
-  destruct (pick_cube_bdd_some St choice s st e cb tr st' B G E) as [_ X]. exact X.
-Qed.
+Proof. exact c13_bdd_pick_cube_entries_thm. Qed.
 Print Assumptions C13_bdd_pick_cube_entries.
 
 (** the choice function: levels strictly increase along the trace (so it is
@@ -61,12 +58,7 @@ Theorem C13_bdd_choice_once_per_level : forall St choice s st e cb tr st', BddOK
   incr_from (rlevel s (eref e)) (map sp_level tr) /\
   (forall p, In p tr -> sp_level p < nlevels s) /\
   (forall p, In p tr -> call_ok view_plain good_bdd den_bdd s p).
-Proof.
-  intros St choice s st e cb tr st' B G E.
-  destruct (pick_cube_bdd_some St choice s st e cb tr st' B G E) as [R _].
-  destruct (run_bdd_levels St choice s st e tr st' B R G) as [A C].
-  split; [exact A|]. split; [exact C|]. apply (run_bdd_calls St choice s st e tr st' B R G).
-Qed.
+Proof. exact c13_bdd_choice_once_per_level_thm. Qed.
 Print Assumptions C13_bdd_choice_once_per_level.
 
 (** ... and its answers are respected: the values recorded at the asked steps
@@ -75,11 +67,7 @@ Print Assumptions C13_bdd_choice_once_per_level.
 Theorem C13_bdd_choice_respected : forall St choice s st e cb tr st', BddOK s -> good_bdd s e ->
   pick_cube_bdd St choice s st e = Some (Some (cb, tr, st')) ->
   replay St choice st tr = (asked_vals tr, st').
-Proof.
-  intros St choice s st e cb tr st' B G E.
-  destruct (pick_cube_bdd_some St choice s st e cb tr st' B G E) as [R _].
-  apply (run_bdd_answers St choice s st e tr st' R).
-Qed.
+Proof. exact c13_bdd_choice_respected_thm. Qed.
 Print Assumptions C13_bdd_choice_respected.
 
 (** [pick_cube] and [pick_cube_dd] describe the same cube (same choices) *)
@@ -111,11 +99,7 @@ Theorem C13_bdd_pick_dd_set : forall s e set L, BddOK s -> good_bdd s e -> good_
   pick_cube_dd_set_bdd s e set =
   drop_st (pick_cube_dd_bdd unit (mask_choice (lit_pol L)) s tt e) /\
   forall a, den_bdd s set a = forallb (fun p : nat * bool => Bool.eqb (a (fst p)) (snd p)) L.
-Proof.
-  intros s e set L B G Gs E. split.
-  - apply pick_dd_set_bdd_eq; assumption.
-  - apply cube_lits_bdd_den; assumption.
-Qed.
+Proof. exact c13_bdd_pick_dd_set_thm. Qed.
 Print Assumptions C13_bdd_pick_dd_set.
 
 (** ... spelled out: false exactly for false, an implicant, exactly the cube of
@@ -188,10 +172,7 @@ Theorem C13_bcdd_pick_cube_entries : forall St choice s st e cb tr st', BcddOK s
   length cb = nlevels s /\
   forall l, l < nlevels s ->
     cube_lit s cb l = match trace_val tr l with Some v => v | None => None end.
-Proof.
-  intros St choice s st e cb tr st' B G E.
-  destruct (pick_cube_bcdd_some St choice s st e cb tr st' B G E) as [_ X]. exact X.
-Qed.
+Proof. exact c13_bcdd_pick_cube_entries_thm. Qed.
 Print Assumptions C13_bcdd_pick_cube_entries.
 
 Theorem C13_bcdd_choice_once_per_level : forall St choice s st e cb tr st', BcddOK s -> good_bcdd s e ->
@@ -199,22 +180,13 @@ Theorem C13_bcdd_choice_once_per_level : forall St choice s st e cb tr st', Bcdd
   incr_from (rlevel s (eref e)) (map sp_level tr) /\
   (forall p, In p tr -> sp_level p < nlevels s) /\
   (forall p, In p tr -> call_ok view_bcdd good_bcdd den_bcdd s p).
-Proof.
-  intros St choice s st e cb tr st' B G E.
-  destruct (pick_cube_bcdd_some St choice s st e cb tr st' B G E) as [R _].
-  destruct (run_bcdd_levels St choice s st e tr st' B R G) as [A C].
-  split; [exact A|]. split; [exact C|]. apply (run_bcdd_calls St choice s st e tr st' B R G).
-Qed.
+Proof. exact c13_bcdd_choice_once_per_level_thm. Qed.
 Print Assumptions C13_bcdd_choice_once_per_level.
 
 Theorem C13_bcdd_choice_respected : forall St choice s st e cb tr st', BcddOK s -> good_bcdd s e ->
   pick_cube_bcdd St choice s st e = Some (Some (cb, tr, st')) ->
   replay St choice st tr = (asked_vals tr, st').
-Proof.
-  intros St choice s st e cb tr st' B G E.
-  destruct (pick_cube_bcdd_some St choice s st e cb tr st' B G E) as [R _].
-  apply (run_bcdd_answers St choice s st e tr st' R).
-Qed.
+Proof. exact c13_bcdd_choice_respected_thm. Qed.
 Print Assumptions C13_bcdd_choice_respected.
 
 (** incl. [add_literal_to_cube]: the result is in complement-edge normal form
@@ -241,11 +213,7 @@ Theorem C13_bcdd_pick_dd_set : forall s e set L, BcddOK s -> good_bcdd s e -> go
   pick_cube_dd_set_bcdd s e set =
   drop_st (pick_cube_dd_bcdd unit (mask_choice (lit_pol L)) s tt e) /\
   forall a, den_bcdd s set a = forallb (fun p : nat * bool => Bool.eqb (a (fst p)) (snd p)) L.
-Proof.
-  intros s e set L B G Gs E. split.
-  - apply pick_dd_set_bcdd_eq; assumption.
-  - apply cube_lits_bcdd_den; assumption.
-Qed.
+Proof. exact c13_bcdd_pick_dd_set_thm. Qed.
 Print Assumptions C13_bcdd_pick_dd_set.
 
 (** ... spelled out: false exactly for false, an implicant, exactly the cube of
@@ -313,10 +281,7 @@ Theorem C13_zbdd_pick_cube_entries : forall St choice s st e cb tr st', ZbddOK s
   length cb = nlevels s /\
   forall l, l < nlevels s ->
     cube_lit s cb l = match trace_val tr l with Some v => v | None => Some false end.
-Proof.
-  intros St choice s st e cb tr st' B G E.
-  destruct (pick_cube_z_some St choice s st e cb tr st' B G E) as [_ X]. exact X.
-Qed.
+Proof. exact c13_zbdd_pick_cube_entries_thm. Qed.
 Print Assumptions C13_zbdd_pick_cube_entries.
 
 Theorem C13_zbdd_choice_once_per_level : forall St choice s st e cb tr st', ZbddOK s -> good_z s e ->
@@ -324,22 +289,13 @@ Theorem C13_zbdd_choice_once_per_level : forall St choice s st e cb tr st', Zbdd
   incr_from (rlevel s (eref e)) (map sp_level tr) /\
   (forall p, In p tr -> rlevel s (eref e) <= sp_level p < nlevels s) /\
   (forall p, In p tr -> call_ok_z s p).
-Proof.
-  intros St choice s st e cb tr st' B G E.
-  destruct (pick_cube_z_some St choice s st e cb tr st' B G E) as [R _].
-  destruct (pathz_levels s B e tr (runz_path s St choice _ _ _ _ R) G) as [A C].
-  split; [exact A|]. split; [exact C|]. apply (runz_calls St choice s B st e tr st' R G).
-Qed.
+Proof. exact c13_zbdd_choice_once_per_level_thm. Qed.
 Print Assumptions C13_zbdd_choice_once_per_level.
 
 Theorem C13_zbdd_choice_respected : forall St choice s st e cb tr st', ZbddOK s -> good_z s e ->
   pick_cube_z St choice s st e = Some (Some (cb, tr, st')) ->
   replay St choice st tr = (asked_vals tr, st').
-Proof.
-  intros St choice s st e cb tr st' B G E.
-  destruct (pick_cube_z_some St choice s st e cb tr st' B G E) as [R _].
-  apply (runz_answers St choice s st e tr st' R).
-Qed.
+Proof. exact c13_zbdd_choice_respected_thm. Qed.
 Print Assumptions C13_zbdd_choice_respected.
 
 Theorem C13_zbdd_pick_same_cube : forall St choice s st e cb tr st', ZbddOK s -> good_z s e ->
@@ -423,11 +379,7 @@ Theorem C13_hypotheses_satisfiable :
   (BddOK ex_sat_bdd /\ good_bdd ex_sat_bdd (xe (RN 4))) /\
   (BcddOK ex_sat_bcdd /\ good_bcdd ex_sat_bcdd (mkEdge (RN 4) true)) /\
   (ZbddOK ex_sat_zbdd /\ good_z ex_sat_zbdd (xe (RN 6))).
-Proof.
-  split; [split; [exact ex_bdd_ok | exact ex_bdd_good]|].
-  split; [split; [exact ex_bcdd_ok | exact ex_bcdd_good]|].
-  split; [exact ex_zbdd_ok | exact ex_zbdd_good].
-Qed.
+Proof. exact c13_hypotheses_satisfiable_thm. Qed.
 Print Assumptions C13_hypotheses_satisfiable.
 
 (** * Uniform picking: the branch rule, and what [length tr] is *)
